@@ -32,7 +32,7 @@ package mdiff
 //@ spec consumes(e Edit) int := ite(e.Op == slice.OpCopy, 0, len(e.X))
 //@ spec produces(e Edit) int := ite(e.Op == slice.OpDrop, 0, ite(e.Op == slice.OpEmit, len(e.X), len(e.Y)))
 //@ pred editDesc(e Edit, L []string, R []string, l int, r int) := (e.Op == slice.OpDrop || e.Op == slice.OpCopy || e.Op == slice.OpReplace || e.Op == slice.OpEmit) && 0 <= l && 0 <= r
-//@+     && (e.Op != slice.OpCopy ==> l + len(e.X) <= len(L) && (forall j int :: {e.X[j]} 0 <= j && j < len(e.X) ==> streq(e.X[j], L[l + j])))
+//@+     && (e.Op != slice.OpCopy ==> l + len(e.X) <= len(L) && (forall j int :: {e.X[j]} 0 <= j && j < len(e.X) ==> streq(e.X[j], L[l + j + 1])))
 //@+     && (e.Op == slice.OpCopy || e.Op == slice.OpReplace ==> r + len(e.Y) <= len(R) && (forall j int :: {e.Y[j]} 0 <= j && j < len(e.Y) ==> streq(e.Y[j], R[r + j])))
 //@+     && (e.Op == slice.OpEmit ==> r + len(e.X) <= len(R) && (forall j int :: {e.X[j]} 0 <= j && j < len(e.X) ==> streq(e.X[j], R[r + j])))
 //@ pred chunkDesc(c *Chunk, L []string, R []string) := c != nil && allocated(c) && 1 <= c.LStart && 1 <= c.RStart && c.LStart <= c.LEnd && c.RStart <= c.REnd && c.LEnd <= len(L) + 1 && c.REnd <= len(R) + 1
@@ -42,7 +42,7 @@ package mdiff
 //@ pred sameChunk(c *Chunk) := c.LStart == old(c.LStart) && c.RStart == old(c.RStart) && c.LEnd == old(c.LEnd) && c.REnd == old(c.REnd) && c.Edits == old(c.Edits) && c.cl == old(c.cl) && c.cr == old(c.cr)
 //@ pred owns(d *Diff) := (forall j int :: {d.Chunks[j]} 0 <= j && j < len(d.Chunks) ==> len(d.Chunks[j].Edits) > 0 && d.Chunks[j].Edits.base != d.Edits.base)
 //@+     && (forall a int, b int :: {d.Chunks[a], d.Chunks[b]} 0 <= a && a < b && b < len(d.Chunks) ==> d.Chunks[a] != d.Chunks[b] && d.Chunks[a].Edits.base != d.Chunks[b].Edits.base)
-//@ pred ctxOK(c *Chunk, n int) := old(c.LStart) - ite(n > 1, n - 1, 0) <= c.LStart && c.LStart <= old(c.LStart) && old(c.LStart) - c.LStart == old(c.RStart) - c.RStart && old(c.LEnd) <= c.LEnd && c.LEnd <= old(c.LEnd) + ite(n > 0, n, 0) && c.LEnd - old(c.LEnd) == c.REnd - old(c.REnd)
+//@ pred ctxOK(c *Chunk, n int) := old(c.LStart) - ite(n > 0, n, 0) <= c.LStart && c.LStart <= old(c.LStart) && old(c.LStart) - c.LStart == old(c.RStart) - c.RStart && old(c.LEnd) <= c.LEnd && c.LEnd <= old(c.LEnd) + ite(n > 0, n, 0) && c.LEnd - old(c.LEnd) == c.REnd - old(c.REnd)
 //@
 //@ func New
 //@   ensures [C13] diff: result != nil && fresh(result) && result.Left == lhs && result.Right == rhs
